@@ -6,7 +6,8 @@ from concurrent.futures import ThreadPoolExecutor
 
 VERIF = '/verif'
 ALL = '--all-checks' in sys.argv
-ids = sorted(d for d in os.listdir(VERIF + '/seeded') if os.path.isdir(VERIF + '/seeded/' + d) and os.path.exists(VERIF + '/seeded/%s/patch.diff' % d))
+ONLY = [a for a in sys.argv[1:] if not a.startswith('--')]
+ids = sorted(d for d in os.listdir(VERIF + '/seeded') if os.path.isdir(VERIF + '/seeded/' + d) and os.path.exists(VERIF + '/seeded/%s/patch.diff' % d) and (not ONLY or any(re.search(o, d) for o in ONLY)))
 props = ['C%02d' % i for i in range(1, 21)]
 
 def run(sid):
@@ -32,18 +33,29 @@ def run(sid):
 
 with ThreadPoolExecutor(16) as ex:
     out = dict(ex.map(run, ids))
-json.dump(out, open(VERIF + '/seeded/STATUS.json', 'w'), indent=1, sort_keys=True)
+if not ONLY:
+    json.dump(out, open(VERIF + '/seeded/STATUS.json', 'w'), indent=1, sort_keys=True)
 miss = []
+n_twin = n_break = 0
 for sid in ids:
     r = out[sid]
     own = sid.split('-')[0]
+    twin = sid.split('-')[1].startswith('R')
     if 'error' in r:
         print(sid, 'PATCH-ERROR', r['error'][:80]); miss.append(sid); continue
     o = r.get(own)
+    if twin:
+        n_twin += 1
+        badp = {p: v for p, v in r.items() if v['exit'] != 0}
+        print('%-7s %-11s %s' % (sid, 'SILENT' if not badp else 'NOT-SILENT', '  '.join('%s:exit%d:%s' % (p, v['exit'], ','.join(v['rules'] or v['analysis_errors'])) for p, v in sorted(badp.items()))))
+        if badp:
+            miss.append(sid)
+        continue
+    n_break += 1
     det = o and o['exit'] == 1
     others = [p for p in r if p != own and r[p]['exit'] == 1]
-    print('%-7s %-8s %s%s' % (sid, 'DETECTED' if det else ('exit2' if o and o['exit'] == 2 else 'MISSED'), ','.join(o['rules']) if o else '-',
-                              ('   also: ' + ','.join(others)) if others else ''))
+    print('%-7s %-11s %s%s' % (sid, 'DETECTED' if det else ('exit2' if o and o['exit'] == 2 else 'MISSED'), ','.join(o['rules'] or o['analysis_errors']) if o else '-',
+                               ('   also: ' + ','.join(others)) if others else ''))
     if not det:
         miss.append(sid)
-print('detected by own property check: %d/%d ; not: %s' % (len(ids) - len(miss), len(ids), miss))
+print('%d breaking changes, %d twins; not as wanted: %s' % (n_break, n_twin, miss))
